@@ -242,3 +242,14 @@ CLAIMED['C40'] = dict(_IRTV,
     note="Trusted: as C36. One miscompilation (memory-load expression propagated past a store) is recorded as C40-KF1.",
     technique="translation validation: bounded symbolic execution of original and rewritten IR + z3 equivalence per path",
     design_ref="DESIGN.md §3 C40")
+
+CLAIMED['C39'] = dict(
+    level='other', engine='irsym+refsem',
+    text="On 48 (quick) / 360 (thorough) loop-free generated IR graphs (diamonds, nested diamonds, parallel swaps/rotations, "
+         "store/reload, save/restore) every solution of DependencyGraph.get for 3 target sets is checked: z3 proves, for all "
+         "initial states under non-aliasing hypotheses, that DependencyResult.emul() (sliced assignments) equals direct execution "
+         "of the full blocks along the solution history, and in implicit mode that the recorded solver constraints are "
+         "equivalent to the path condition of that history.",
+    note="Trusted: z3, vf/refsem.py, vf/irsym.py. Loop-free programs only; exact-match memory tracking limitation recorded as C39-KF1.",
+    technique="SMT equivalence between the real slice emulation and a direct IR executor per dependency solution",
+    design_ref="DESIGN.md §3 C39")
